@@ -707,6 +707,18 @@ namespace
     // container members of one live joint object assigned from those of another (copy / move assignment;
     // joint_allocator does not propagate, so the target keeps using its own object's memory)
     template <class J>
+    struct joint_assignable : std::false_type
+    {
+    };
+    template <class E>
+    struct joint_assignable<JV<E>> : std::true_type
+    {
+    };
+    template <>
+    struct joint_assignable<JM> : std::true_type
+    {
+    };
+    template <class J>
     bool joint_assign(J&, J&, unsigned)
     {
         return false;
@@ -1229,11 +1241,19 @@ namespace
             {
                 size_t from = (slot + 1 + o.b % 2) % 3;
                 auto&  fp   = *slots[from];
-                if (!sp || !fp)
+                if (!joint_assignable<J>::value)
                 {
                     ++ci.noops;
                     break;
                 }
+                // make sure both objects exist (on generated allocators, with generated contents)
+                Slab::get().set_skew(0);
+                if (!sp)
+                    create(slot, o.b % 2 ? leafB : leafA, 64 + n * 80 + m * 80, n, m, true, false);
+                if (!fp && !fail.failed)
+                    create(from, (o.b / 2) % 2 ? leafB : leafA, 64 + m * 80 + n * 80, m, n, true, false);
+                if (fail.failed || !sp || !fp)
+                    break;
                 if (!check_pattern(slot) || !check_pattern(from))
                     break;
                 if (!joint_assign(*sp, *fp, o.a))
@@ -1748,7 +1768,7 @@ namespace
                 out.max_ops = 30;
                 out.kinds   = {{"create_measure", 6}, {"create_small", 2}, {"clone", 4}, {"move", 3}, {"reset", 2},
                                {"dyn_alloc", 7}, {"dyn_release", 4}, {"container_op", 4}, {"move_object", 4},
-                               {"cross_assign", 3}};
+                               {"cross_assign", 4}};
                 out.rule    = "additional size > 0 with >= 2 members, or an exact-fit / one-byte-short creation, or a "
                               "clone followed by mutation, or the release of a piece that is not the last allocation "
                               "while others are live, or a container operation while later pieces are live, or a joint object "
